@@ -347,6 +347,7 @@ impl IterSut for Arc<TK> {
 fn replay<S: IterSut>(cfg: &Value, env: &Env, path: &[Value]) -> Option<S> {
     let mut c = S::build(cfg, env).ok()?;
     for op in path {
+        crate::exec::beat();
         let mut h: Hold<TK> = Hold::new();
         c.apply(op, &mut h);
     }
@@ -399,6 +400,7 @@ fn run_kind<S: IterSut>(a: &crate::Args) -> Value {
                 for word in words(n, all_words && n <= 4) {
                     // every run starts from a freshly replayed state (mutable families write)
                     let Some(mut c) = replay::<S>(&cfg, &env, &path) else { continue };
+                    crate::exec::beat();
                     let r = catch_unwind(AssertUnwindSafe(|| c.run(list, fam, &word)));
                     let rec = match r {
                         Ok(Some((lg, len, aft))) => json!({
